@@ -59,6 +59,11 @@ func run(t *testing.T, idx int64, r *rand.Rand, kindIdx, cmIdx, amIdx int, exhau
 	expectGrant := false
 	var busyBefore, busyAfter int
 	viaDeadline := false
+	slow := k.Family == "queue" && cm == "none" && exhausted && r.IntN(2) == 0
+	slowBy := T/4 + time.Duration(r.Int64N(int64(T)))
+	var pushedAt time.Duration
+	rt.Scenario(fmt.Sprintf("C13/%s", k), idx, rt.J{"kind": k, "cancel_mode": cm, "arrival": am, "capacity_exhausted": exhausted})
+	defer rt.ScenarioDone()
 	bubble(t, func(t *testing.T) {
 		w := blk.NewWorld(k, 1)
 		var held = w.Hold(0)
@@ -142,6 +147,21 @@ func run(t *testing.T, idx int64, r *rand.Rand, kindIdx, cmIdx, amIdx int, exhau
 				expectRefusedAt = false
 			}
 		}
+		// slow delegate (queue limiter, no cancellation): every failed attempt of the caller takes virtual time, so the
+		// backlog timer is armed later than the call began; the refusal must come no earlier than arrival + timeout and no
+		// later than enqueue + timeout
+		if slow {
+			w.Gate.Hook = func(e inject.GateEvent) {
+				if !e.OK && w.WaiterByGoID(e.GoID) != nil {
+					time.Sleep(slowBy)
+				}
+			}
+			w.OnPoint("queue.after_push", func(wt *blk.Waiter) {
+				if wt != nil {
+					pushedAt = w.Now()
+				}
+			})
+		}
 		busyBefore = w.Strat.GetBusyCount()
 		viaDeadline = cancelAt > arrive && r.IntN(2) == 0 // the context ends by its own deadline instead of an explicit cancel
 		if cm == "before-arrival" {
@@ -173,6 +193,9 @@ func run(t *testing.T, idx int64, r *rand.Rand, kindIdx, cmIdx, amIdx int, exhau
 		if cancelAt > horizon {
 			horizon = cancelAt
 		}
+		if slow {
+			horizon += 3 * slowBy
+		}
 		if horizon+1 > w.Now() {
 			time.Sleep(horizon + 1 - w.Now())
 		}
@@ -197,6 +220,25 @@ func run(t *testing.T, idx int64, r *rand.Rand, kindIdx, cmIdx, amIdx int, exhau
 		rt.Violation(fmt.Sprintf("C13/%s/%s", k, sig), idx, extra)
 	}
 	doneInTime := len(snap.Blocked) == 0 && len(snap.GivingUp) == 0
+	if slow {
+		rt.Count("slow_delegate_scenarios", 1)
+		lo, hi := sc.ArriveAt+k.Timeout, pushedAt+k.Timeout
+		switch {
+		case !doneInTime:
+			fail("blocked-past-its-bound/slow-delegate", rt.J{"enqueued_at": pushedAt.String(), "attempt_duration": slowBy.String()})
+		case wt.OK:
+			fail("granted-although-bound-reached-without-capacity", rt.J{})
+		case pushedAt == 0:
+			// refused without ever being enqueued: nothing to bound
+		case wt.Returned < lo:
+			fail("returned-before-its-bound/slow-delegate", rt.J{"earliest": lo.String()})
+		case wt.Returned > hi:
+			fail("returned-after-its-bound/slow-delegate", rt.J{"latest": hi.String()})
+		default:
+			rt.Distinct(fmt.Sprintf("slow|%s|%v|%v", k, sc.ArriveAt, slowBy))
+		}
+		return
+	}
 	switch {
 	case expectGrant && expectRefusedAt:
 		if !doneInTime || !wt.OK || wt.Returned != expected {
@@ -266,6 +308,8 @@ func twoWaiters(t *testing.T, idx int64, r *rand.Rand, kindIdx int) {
 	stillBlockedIsRight := false
 	var a [2]time.Duration
 	var rel, cancelAt time.Duration
+	rt.Scenario(fmt.Sprintf("C13/%s/two-waiters", k), idx, rt.J{"kind": k})
+	defer rt.ScenarioDone()
 	bubble(t, func(t *testing.T) {
 		w := blk.NewWorld(k, 1)
 		held := w.Hold(1)
